@@ -233,7 +233,11 @@ func (s *Script) render(decls []string, only int, incremental bool) string {
 			if only >= 0 && only == n {
 				return b.String()
 			}
-			if e.kind == evCheck {
+			// a checked condition is assumed afterwards — except for frame
+			// obligations (checked as the literal false): assuming those would
+			// make the rest of the path vacuous and hide the obligations the
+			// offending write goes on to break
+			if e.kind == evCheck && e.ob.Kind != "frame" && e.ob.Kind != "nocontract" {
 				fmt.Fprintf(&b, "(assert %s)\n", e.term)
 			}
 			n++
